@@ -173,6 +173,11 @@ func (ex *Executor) builtin(st *State, fr *Frame, b *ssa.Builtin, cc *ssa.CallCo
 		return r
 	case "print", "println":
 		return nil
+	case "ssa:wrapnilchk":
+		if p, ok := args[0].(Ptr); ok && p.isNil() {
+			ex.require(st, tt.False, "value method called through a nil pointer")
+		}
+		return args[0]
 	case "panic":
 		ex.recordViolation(st, "panic: explicit panic", st.model)
 		ex.PathsPanic++
